@@ -106,12 +106,13 @@ func runPlugin(r *Run, prop string) {
 	var atBackendBodies = map[uint32][]byte{}
 	var atBackendChan = map[uint32]string{}
 	var registerAtBackend []string
+	sentRegs := map[string]bool{} // payloads of the client's own minecraft:register messages
 	var atClient = map[uint32][]byte{}
 	var atClientN = map[uint32]int{}
 	onBackendPkt := func(rec *pktRec) {
 		if pm, ok := rec.Packet.(*plugin.Message); ok {
 			if plugin.IsRegister(pm) {
-				if strings.Contains(string(pm.Data), "verif:client1") { // the client's own registration (the proxy also registers its channels)
+				if sentRegs[string(pm.Data)] { // the client's own registrations (the proxy also registers its channels)
 					registerAtBackend = append(registerAtBackend, string(pm.Data))
 				}
 				return
@@ -215,12 +216,17 @@ func runPlugin(r *Run, prop string) {
 		if r.W.Pick(2) == 0 {
 			registered = true
 			r.Op("register")
+			sentRegs["verif:client1\x00verif:client2"] = true
 			_ = c.send(&plugin.Message{Channel: "minecraft:register", Data: []byte("verif:client1\x00verif:client2")})
-			// mods register again after a respawn or switch: the same set, or a subset
+			// mods register again after a respawn or switch: the same set, a subset, nothing, or
+			// names that are not valid identifiers (legacy mods); every forwarded registration
+			// raises its event
 			for i, n := 0, r.W.Pick(3); i < n; i++ {
 				nRegistrations++
 				r.Op("register-again")
-				_ = c.send(&plugin.Message{Channel: "minecraft:register", Data: [][]byte{[]byte("verif:client1\x00verif:client2"), []byte("verif:client1")}[r.W.Pick(2)]})
+				d := [][]byte{[]byte("verif:client1\x00verif:client2"), []byte("verif:client1"), []byte("NOT A VALID ID\x00Also Bad!"), []byte("FML|HS\x00FML\x00FORGE")}[r.W.Pick(4)]
+				sentRegs[string(d)] = true
+				_ = c.send(&plugin.Message{Channel: "minecraft:register", Data: d})
 			}
 		}
 		for i := 0; i < nLate; i++ {
